@@ -9,7 +9,7 @@ NOTES = {
     "C19-F": "round 7; first missed (no name whose case-folded and lower-cased forms differ): such names in the stand-in and the native search",
     "C05-F": "round 7; caught by the stand-in; a changed frame expression is now treated like a function that cannot be generated (it crashed the checker), and its native search replays an incompressible 200 KB stream",
     "C07-F": "round 6; first missed (the validator did not look at data files): data files no record describes are an inventory error; C07 shares C15's structural obligation on the cell-style key; rebased after fix 84fda69",
-    "C09-F": "round 6; first missed: labels shared by the first body column/row and one later one, unequal header counts; these configurations also exposed a genuine defect (fix 0556d8f)",
+    "C09-F": "round 6; first missed: labels shared by the first body column/row and one later one, unequal header counts; these configurations also exposed a genuine defect (fix 0556d8f); later _calculate_name_scopes was brought under contract",
     "C12-F": "round 6; first missed (hidden behind the open finding F-C12-2, whose witness pattern matched every edit history): tail deletions holding a whole rectangle are generated and worded apart",
     "C15-F": "round 6; first missed (needs a second table and three saves): styles/formats of two tables over three saves (own stand-in), structural obligation on add_table (owns every keyed list), which also exposed a genuine defect for format lists (fix 93ff614); rebased",
     "C16-F": "round 6; first missed (only a sheet with a pivot table before another table): Document.save under contract, sizes set on every table of loaded fixtures incl. test-pivot.numbers",
